@@ -24,19 +24,96 @@ var c44Groups = []pinGroup{
 	{Rel: "common", TypeName: "PathDomain", Why: "path domains are stored by number"},
 	{Rel: "common", TypeName: "CompositeKind", Why: "composite kinds are stored by number"},
 	{Rel: "common", TypeName: "StorageDomain", Why: "storage domains key account storage maps"},
+	{Rel: "sema", TypeName: "EntitlementSetKind", Why: "the kind of an entitlement-set authorization is stored by number"},
 }
 
 func c44(r *core.Run) {
 	r.Explanation = "Decided clauses: (R1) every numeric constant that is written into account storage — values.CBORTag*, interpreter.PrimitiveStaticType*, HashInputType*, the encoded* field-index/length constants of interpreter/encode.go, " +
 		"common.PathDomain*, CompositeKind*, StorageDomain* — still exists and has the value pinned from the reviewed tree (additions at fresh values are allowed, renumbering/removal/reuse is not); " +
-		"(R2) every CBOR tag the storable encoder emits is accepted by a case of the decoder that constructs the same value kind. (R5) no error of an inner encode/decode step of encoding/ccf is dropped or swallowed beyond the pinned baseline."
+		"(R2) every CBOR tag the storable encoder emits is accepted by a case of the decoder that constructs the same value kind. (R3) the sequence of CBOR primitives each storable Encode method emits equals the pinned one; (R5) no error of an inner step of interpreter/encode.go and decode.go is dropped or swallowed beyond the pinned baseline; " +
+		"(R6) every enumeration whose numeric value the storable encoder writes is one of the pinned groups of R1 (sema.EntitlementSetKind included); " +
+		"(R7) no type assertion of the decoder narrows a decoded value below the interface type of the slot it is stored in (the encoder writes every implementation of that slot)."
 	r.NotDecided = "round-trip equality on values; atree's own slab encoding (external)."
 	pinRule(r, "R1.pinned", "c44_pinned", c44Groups)
 	r.Floor("R1.pinned", 230)
 	c44TagSymmetry(r)
 	c44EncodingShape(r)
 	// shared ERR rule restricted to this codec: a failure of an inner encode/decode step must not be dropped
-	errDiscipline(r, "R5.errdrop", "encoding/ccf functions", func(fn *ssa.Function) bool { return fn.Pkg != nil && fn.Pkg.Pkg.Path() == mod+"/encoding/ccf" }, 100)
+	errDiscipline(r, "R5.errdrop", "storage codec functions (interpreter/encode.go, decode.go)", func(fn *ssa.Function) bool {
+		if fn.Pkg == nil || fn.Pkg.Pkg.Path() != mod+"/interpreter" {
+			return false
+		}
+		f := r.W.File(fn.Pos())
+		return f == "interpreter/encode.go" || f == "interpreter/decode.go"
+	}, 60)
+	c44StoredEnums(r)
+	c44AssertWidth(r)
+}
+
+// c44StoredEnums: R6 — every enumeration (named integer type of the module with declared constants) whose numeric
+// value the storable encoder writes must be one of the pinned groups of R1: otherwise renumbering it (inserting a
+// constant, reordering) silently changes the meaning of stored bytes.
+func c44StoredEnums(r *core.Run) {
+	w := r.W
+	rule := "R6.storedenums"
+	pinned := map[string]bool{}
+	for _, g := range c44Groups {
+		if g.TypeName != "" {
+			pinned[mod+"/"+g.Rel+"."+g.TypeName] = true
+		}
+	}
+	nConsts := func(nt *types.Named) int {
+		n := 0
+		sc := nt.Obj().Pkg().Scope()
+		for _, name := range sc.Names() {
+			if c, ok := sc.Lookup(name).(*types.Const); ok && types.Identical(c.Type(), nt) {
+				n++
+			}
+		}
+		return n
+	}
+	seen := map[string]bool{}
+	for _, fn := range w.SrcFuncsIn("interpreter") {
+		if fn.Parent() != nil || w.File(fn.Pos()) != "interpreter/encode.go" {
+			continue
+		}
+		core.Instrs(fn, true, func(in ssa.Instruction) {
+			cv, ok := in.(*ssa.Convert)
+			if !ok {
+				return
+			}
+			nt, ok := cv.X.Type().(*types.Named)
+			if !ok || nt.Obj().Pkg() == nil || !core.InMod(nt.Obj().Pkg().Path()) {
+				return
+			}
+			b, ok := nt.Underlying().(*types.Basic)
+			if !ok || b.Info()&types.IsInteger == 0 {
+				return
+			}
+			// the converted number must reach a CBOR encode call
+			reaches := false
+			if refs := cv.Referrers(); refs != nil {
+				for _, ref := range *refs {
+					if c, ok := ref.(ssa.CallInstruction); ok {
+						if o := core.Callee(c); o != nil && strings.HasPrefix(o.Name(), "Encode") {
+							reaches = true
+						}
+					}
+				}
+			}
+			if !reaches || nConsts(nt) < 2 {
+				return
+			}
+			k := nt.Obj().Pkg().Path() + "." + nt.Obj().Name()
+			if seen[k] {
+				return
+			}
+			seen[k] = true
+			r.Check(pinned[k], rule, strings.TrimPrefix(k, mod+"/")+": stored by number", cv.Pos(), "its constants are pinned by R1",
+				"the storable encoder writes the numeric value of this enumeration, but its constants are not pinned: renumbering it would silently change the meaning of stored bytes")
+		})
+	}
+	r.Floor(rule, 2)
 }
 
 // c44EncodingShape: R3 — the sequence of CBOR primitives (and raw head bytes) each storable Encode method emits is the
@@ -316,4 +393,84 @@ func concreteReturns(w *core.World, f *types.Func, depth int) map[string]bool {
 		return true
 	})
 	return out
+}
+
+
+// c44AssertWidth: R7 — the decoder must accept every value the encoder can have written. Where the decoder narrows a
+// decoded value by a type assertion and then puts it into a slot (struct field, constructor parameter) declared with
+// a wider interface type, stored values of the other implementations of that interface (which the encoder writes
+// through the same slot) no longer decode. Each such assertion must assert the slot's own type; reviewed exceptions
+// are listed in tables/c44_narrow_asserts.
+func c44AssertWidth(r *core.Run) {
+	w := r.W
+	rule := "R7.assertwidth"
+	reviewed := map[string]string{}
+	if !r.Table("c44_narrow_asserts", &reviewed) {
+		return
+	}
+	used := map[string]bool{}
+	n, total := 0, 0
+	qual := func(p *types.Package) string { return p.Name() }
+	for _, fn := range w.SrcFuncsIn("interpreter") {
+		if fn.Parent() != nil || w.File(fn.Pos()) != "interpreter/decode.go" {
+			continue
+		}
+		core.Instrs(fn, true, func(in ssa.Instruction) {
+			ta, ok := in.(*ssa.TypeAssert)
+			if !ok {
+				return
+			}
+			var val ssa.Value = ta
+			if ta.CommaOk {
+				val = nil
+				if refs := ta.Referrers(); refs != nil {
+					for _, ref := range *refs {
+						if ex, ok := ref.(*ssa.Extract); ok && ex.Index == 0 {
+							val = ex
+						}
+					}
+				}
+			}
+			if val == nil || val.Referrers() == nil {
+				return
+			}
+			total++
+			// slots the asserted value is converted into
+			for _, ref := range *val.Referrers() {
+				var slot types.Type
+				switch x := ref.(type) {
+				case *ssa.MakeInterface:
+					slot = x.Type()
+				case *ssa.ChangeInterface:
+					slot = x.Type()
+				default:
+					continue
+				}
+				if _, isIface := slot.Underlying().(*types.Interface); !isIface {
+					continue
+				}
+				if types.Identical(slot, ta.AssertedType) {
+					continue
+				}
+				if ei, ok := slot.Underlying().(*types.Interface); ok && ei.NumMethods() == 0 {
+					continue // any / error formatting arguments
+				}
+				n++
+				key := core.SSAKey(fn) + ": " + types.TypeString(ta.AssertedType, qual) + " into " + types.TypeString(slot, qual)
+				if why, ok := reviewed[key]; ok {
+					used[key] = true
+					r.OK(rule, key, ta.Pos(), "reviewed: "+why)
+					continue
+				}
+				r.Bad(rule, key, ta.Pos(), "the decoder asserts a narrower type than the slot the value is stored in accepts: values of the slot's other implementations, which the encoder writes, no longer decode")
+			}
+		})
+	}
+	for k := range reviewed {
+		if !used[k] {
+			r.Bad(rule, "stale reviewed entry: "+k, 0, "tables/c44_narrow_asserts lists an assertion that no longer exists")
+		}
+	}
+	r.Check(total >= 20, rule, "interpreter/decode.go scan", 0, itoa(total)+" type assertions on decoded values examined, "+itoa(n)+" narrowing into an interface slot", "fewer type assertions than reviewed: the decoder was not resolved")
+	r.Floor(rule, 1)
 }
